@@ -1319,6 +1319,10 @@ scpi_bool_t SCPI_ParamBool(scpi_t * context, scpi_bool_t * value, scpi_bool_t ma
         if (param.type == SCPI_TOKEN_DECIMAL_NUMERIC_PROGRAM_DATA) {
             SCPI_ParamToInt32(context, &param, &intval);
             *value = intval ? TRUE : FALSE;
+        } else if (param.type == SCPI_TOKEN_DECIMAL_NUMERIC_PROGRAM_DATA_WITH_SUFFIX) {
+            /* boolean has no unit, same error as the numeric readers report */
+            SCPI_ErrorPush(context, SCPI_ERROR_SUFFIX_NOT_ALLOWED);
+            result = FALSE;
         } else {
             result = SCPI_ParamToChoice(context, &param, scpi_bool_def, &intval);
             if (result) {
